@@ -181,7 +181,9 @@ where
     T: CBOREncodable,
 {
     fn into_envelope(self) -> Envelope {
-        Envelope::new(CBOR::from(self))
+        // Go through `Set` so the encoding does not depend on the hasher's
+        // iteration order: equal sets must produce equal envelopes.
+        Envelope::new(CBOR::from(Set::from(self)))
     }
 }
 
